@@ -80,11 +80,12 @@ fn decode_check_one<T: Pixel>(
     let u8s = std::mem::size_of::<T>() == 1;
     // the YUV<->RGB stage uses matrix, range and depth only: the transfer / primaries labels rotate through every enum
     // value (reserved and unsupported ones too), and every third call leaves them Unspecified in the request
-    let rot = ci * 7 + tri.len();
+    // (the rotation also depends on the first triple, so that every chunk of a config's workload carries other labels)
+    let rot = ci * 7 + tri.len() + tri.first().map_or(0, |t| (t[0] as usize) * 31 + (t[1] as usize) * 17 + t[2] as usize);
     let raw = if rot % 3 == 0 {
         YuvConfig { transfer_characteristics: TC::Unspecified, color_primaries: CP::Unspecified, ..cfg444(m, full, n) }
     } else {
-        YuvConfig { transfer_characteristics: ALL_TC[rot % ALL_TC.len()], color_primaries: ALL_CP[(rot / 5) % ALL_CP.len()], ..cfg444(m, full, n) }
+        YuvConfig { transfer_characteristics: ALL_TC[(rot / 3) % ALL_TC.len()], color_primaries: ALL_CP[(rot / 7) % ALL_CP.len()], ..cfg444(m, full, n) }
     };
     let yuv: Yuv<T> = mk_yuv(tri, raw);
     let cfg = yuv.config(); // == raw unless a field was Unspecified
@@ -502,7 +503,8 @@ pub fn c08(ctx: &Ctx) {
 /// (pixel (x,y) takes the chroma sample at (x>>ss_x, y>>ss_y)); C08: 4:4:4 only, exact round trip.
 fn layout_stratum(ctx: &Ctx, roundtrip: bool) {
     let cfgs = configs();
-    let pads: [(usize, usize, usize); 4] = [(0, 0, 0), (0, 0, 17), (0, 17, 0), (5, 32, 1)];
+    // (an entry p pads both axes by p; 100+k pads x only, 200+k pads y only)
+    let pads: [(usize, usize, usize); 6] = [(0, 0, 0), (0, 0, 17), (0, 17, 0), (5, 32, 1), (108, 101, 132), (208, 108, 200)];
     let sss: [(u8, u8); 6] = [(0, 0), (1, 0), (1, 1), (0, 1), (2, 0), (2, 2)];
     let worst = Mutex::new(Worst::<(usize, (u8, u8), (usize, usize, usize), usize, usize)>::new());
     let frames = AtomicU64::new(0);
@@ -559,7 +561,11 @@ fn layout_stratum(ctx: &Ctx, roundtrip: bool) {
                 // rebuild with the requested per-plane paddings, same visible samples
                 let (cw, ch) = (w >> ss.0, h >> ss.1);
                 let mut g: Frame<u16> = Frame {
-                    planes: [Plane::new(w, h, 0, 0, pad.0, pad.0), Plane::new(cw, ch, ss.0 as usize, ss.1 as usize, pad.1, pad.1), Plane::new(cw, ch, ss.0 as usize, ss.1 as usize, pad.2, pad.2)],
+                    planes: [
+                        Plane::new(w, h, 0, 0, crate::frames::xypad(pad.0).0, crate::frames::xypad(pad.0).1),
+                        Plane::new(cw, ch, ss.0 as usize, ss.1 as usize, crate::frames::xypad(pad.1).0, crate::frames::xypad(pad.1).1),
+                        Plane::new(cw, ch, ss.0 as usize, ss.1 as usize, crate::frames::xypad(pad.2).0, crate::frames::xypad(pad.2).1),
+                    ],
                 };
                 for p in 0..3 {
                     let (pw, ph) = if p == 0 { (w, h) } else { (cw, ch) };
@@ -568,7 +574,7 @@ fn layout_stratum(ctx: &Ctx, roundtrip: bool) {
                     }
                     // for half of the configs the visible area is moved inside the padding by hand (a cropped view:
                     // odd origins, which Plane::new itself never produces)
-                    let padp = [pad.0, pad.1, pad.2][p];
+                    let padp = { let q = crate::frames::xypad([pad.0, pad.1, pad.2][p]); q.0.min(q.1) };
                     if ci % 2 == 0 && padp >= 1 {
                         g.planes[p].cfg.xorigin += if padp >= 5 { 3 } else { 1 };
                         g.planes[p].cfg.yorigin += 1;
